@@ -50,7 +50,7 @@ def select(pid=None, tier='quick', fn_key=None, seed=0):
 
 
 def _gk(key):
-    k = re.sub(r'\b(BUint|BInt)D(8|16|32)\b', r'\1', key)
+    k = re.sub(r'(BUint|BInt)D(8|16|32)(?![0-9A-Za-z_])', r'\1', key)
     k = re.sub(r'\bdigit::u(8|16|32|64)::', 'digit::', k)
     return k.replace(' ', '')
 
